@@ -238,6 +238,7 @@ def _fault_catalogue_():
             seen.add(fam)
             cat.append((fam, i))
     cat.append(('cleanup', -2))
+    cat.append(('assert-fails+cleanup', -3))  # double fault: a failing assertion AND a failing cleanup instruction
     return n, cells, cat
 
 
@@ -248,7 +249,7 @@ def _pre_k3(kind: int, mode: int, opt: int, access: int, xsel: int) -> bool:
     if idx >= 0:
         if kind not in C01.valid_kinds(cells[idx][0]):
             return False
-    elif idx == -2:
+    elif idx in (-2, -3):
         if kind not in (2, 3, 4):
             return False
     elif kind != 0:
@@ -262,7 +263,7 @@ def _pre_k3(kind: int, mode: int, opt: int, access: int, xsel: int) -> bool:
     if access != 0 and not (idx == -1 and mode == 0 and xsel == 0):
         return False
     # exit codes other than the first only where the action to check runs to completion
-    if xsel != 0 and fam not in ('none', 'cleanup', 'ba-main', 'assert-main'):
+    if xsel != 0 and fam not in ('none', 'cleanup', 'ba-main', 'assert-main', 'assert-fails+cleanup'):
         return False
     return True
 
@@ -296,7 +297,9 @@ def run_chain(fault_idx: int, kind: int, mode: int, opt: int, access: int, xsel:
 
     def kind_of(cell) -> int:
         if cell[0] == 'cleanup' and cell[1] == 'main':
-            return kind if idx == -2 else 0
+            return kind if idx in (-2, -3) else 0
+        if idx == -3 and cell == ('assert', 'main', 0):
+            return 5  # FAIL
         if idx >= 0 and cell == cells[idx][0]:
             return kind
         return 0
@@ -365,11 +368,17 @@ def expected_chain(f) -> dict:
     act_only = (f['opt'] == 2)
     if act_only and fam in ('ba-main', 'assert-main'):
         idx, kind = -1, 0  # these steps are not part of an --act execution
+    if idx == -3 and act_only:
+        idx = -2  # the assert phase is not part of an --act execution
     if idx == -2:
         x = C01.expected(f['n'], -1, 0, 0, kind, mode)
+    elif idx == -3:
+        # an interrupted execution is reported as the error verdict: the failing cleanup step decides
+        assert_idx = [i for i, (c, _) in enumerate(f['cells']) if c == ('assert', 'main', 0)][0]
+        x = C01.expected(f['n'], assert_idx, 5, 0, kind, mode)
     else:
         x = C01.expected(f['n'], idx, kind, -1, 0, mode)
-    e['ident'] = x.outcomes[-1][0] if idx == -2 and x.cleanup_fault is not None else x.outcomes[0][0]
+    e['ident'] = x.outcomes[-1][0] if idx in (-2, -3) and x.cleanup_fault is not None else x.outcomes[0][0]
     e['sandbox'] = x.sandbox
     e['atc_ran'] = x.atc_completed or (x.sandbox and (x.first is None))
     e['completed'] = e['ident'] in COMPLETE
@@ -393,6 +402,72 @@ def k3_chain(kind: int, mode: int, opt: int, access: int, xsel: int) -> bool:
     ok = _outputs_ok(OPTIONS[f['opt']], e['ident'], rc, stdout, stderr, sds_root, e['atc_ran'], f['code'],
                      e['completed'], 'atc-out', 'atc-err', bug)
     return ob.post(ok)
+
+
+# ----------------------------------------------------------------------------- K5: external preprocessor
+
+class _MemFile:
+    def __init__(self):
+        self.parts = []
+
+    def __enter__(self):
+        return self
+
+    def __exit__(self, *a):
+        return False
+
+    def write(self, s):
+        self.parts.append(s)
+
+    def seek(self, pos):
+        pass
+
+    def read(self):
+        return ''.join(self.parts)
+
+
+class _TempfileStub:
+    @staticmethod
+    def TemporaryFile(prefix=None, mode='w+'):
+        return _MemFile()
+
+
+def _pre_k5(code: int) -> bool:
+    return -255 <= code <= 255
+
+
+def k5_preprocessor(code: int) -> bool:
+    """
+    pre: _pre_k5(code)
+    post: _
+    """
+    from exactly_lib.processing import preprocessor as pp
+    from exactly_lib.processing.test_case_processing import ProcessError
+    calls = []
+
+    class Sub:
+        @staticmethod
+        def call(cmd, cwd=None, stdout=None, stderr=None, **kw):
+            calls.append((list(cmd), cwd))
+            stdout.write('PREPROCESSED')
+            stderr.write('pp-stderr')
+            return code
+
+    pp.subprocess = Sub
+    pp.tempfile = _TempfileStub
+    p = pp.PreprocessorViaExternalProgram(['the-preprocessor', 'arg'])
+    raised = False
+    out = None
+    try:
+        out = p.apply(pathlib.Path('/vsym/dir/x.case'), 'source')
+    except ProcessError:
+        raised = True
+    ok_call = calls == [(['the-preprocessor', 'arg', 'x.case'], '/vsym/dir')]
+    failing = (code != 0)
+    if ob.case().get('oracle_bug'):
+        failing = code > 0
+    # any non-zero status of the preprocessor (killed by a signal: negative) is a PRE_PROCESS_ERROR
+    return ob.post(ok_call and (raised if failing else (not raised and out == 'PREPROCESSED')))
 
 
 # ----------------------------------------------------------------------------- K4
@@ -468,6 +543,13 @@ def obligations(tier: str) -> List[Ob]:
         Ob(name='K4:seeded-oracle-error', fn='k4_invalid_usage', case=dict(oracle_bug=True), kernel='K4', selector=True,
            bound='seeded: oracle expects 65', timeout=300, expect=ob.REFUTE),
     ]
+    obs.append(Ob(name='K5:preprocessor', fn='k5_preprocessor', case={}, kernel='K5',
+                  bound='every exit status of the external preprocessor in [-255, 255] (negative: killed by a signal)',
+                  timeout=300, real=('exactly_lib.processing.preprocessor.PreprocessorViaExternalProgram.apply',),
+                  stubs=('subprocess.call at preprocessor.py: returns the symbolic status, writes fixed output',
+                         'tempfile.TemporaryFile at preprocessor.py: in-memory file')))
+    obs.append(Ob(name='K5:seeded-oracle-error', fn='k5_preprocessor', case=dict(oracle_bug=True), kernel='K5',
+                  bound='seeded: negative statuses counted as success', timeout=120, expect=ob.REFUTE))
     n, cells, cat = _fault_catalogue()
     for i, (fam, idx) in enumerate(cat):
         obs.append(Ob(
@@ -475,7 +557,8 @@ def obligations(tier: str) -> List[Ob]:
             bound='stub case with 1 instruction per phase; fault at %s with every applicable kind; status PASS/FAIL/SKIP; '
                   '3 output modes; accessor ok / FILE_ACCESS_ERROR / PRE_PROCESS_ERROR / SYNTAX_ERROR / exception; '
                   '5 exit codes of the action to check' % (
-                      'no step' if idx == -1 else 'cleanup main' if idx == -2 else '%s/%s' % cells[idx][0][:2]),
+                      'no step' if idx == -1 else 'cleanup main' if idx == -2 else
+                      'assert main (FAIL) AND cleanup main' if idx == -3 else '%s/%s' % cells[idx][0][:2]),
             timeout=1500, real=REAL_CHAIN, selector=True,
             stubs=('stub instructions / actor (public base classes)', 'stub Accessor (reader+preprocessor+parser stage)',
                    'in-memory stdout/stderr', 'deterministic sandbox resolver'),
